@@ -817,6 +817,37 @@ func c01bodyGroups(c *engine.Ctx, only string, upTo int) {
 	}
 }
 
+// ---- struct declarations whose field attributes hold multi-byte text: the aligned printer of declarations is reached
+// from VM instructions (re-binding a name that holds an instance), not only from builtins
+func c01structText(c *engine.Ctx, only string, upTo int) {
+	texts := []string{"a", "é", "名前", "😀", "名前名前", "ab名", "éé😀é", "x\ty", ""}
+	gi := 0
+	for _, t1 := range texts {
+		gw := fmt.Sprintf("S|%d", gi) + c01tier(c)
+		gi++
+		if !(only == "" && c.Mine() || only == gw) {
+			continue
+		}
+		var cases []c01case
+		for _, t2 := range texts {
+			for vi, decl := range []string{
+				`(struct Tg%d [(field name:string e:0 gotags:"json:\"` + t1 + `\"") (field other:int64 e:1 gotags:"json:\"` + t2 + `\"")])`,
+				`(struct Tg%d [(field ` + "n" + `:string e:0 gotags:"` + t1 + `") (field m:string e:1 gotags:"` + t2 + t2 + `")])`,
+			} {
+				name := fmt.Sprintf("Tg%d", vi)
+				d := strings.Replace(decl, "Tg%d", name, 1)
+				first := "name"
+				if vi == 1 {
+					first = "n"
+				}
+				cases = append(cases, c01case{"eval", d + "\n"}, c01case{"eval", "(def tg (" + name + " " + first + ":\"a\"))\n"}, c01case{"eval", "(def tg (" + name + " " + first + ":\"b\"))\n"},
+					c01case{"eval", "(str " + name + ")\n"}, c01case{"repl", name}, c01case{"repl", "tg"}, c01case{"eval", "(set tg (" + name + " " + first + ":\"c\"))\n"}, c01case{"eval", "(def v2 [tg tg]) (def v2 [tg])\n"})
+			}
+		}
+		c01group(c, gw, nil, cases, upTo)
+	}
+}
+
 // ---- self-referential data: every bound function on an array that contains itself and a hash that contains itself.
 // A runaway recursion over such a value ends in a Go stack overflow, which cannot be recovered and kills the host:
 // each case therefore runs in its own process (the command-line tool with -c).
@@ -912,6 +943,9 @@ func c01all(c *engine.Ctx, only string, upTo int) {
 	if kind == "" || kind == "K" {
 		c01callGroups(c, maxArgs, only, upTo)
 	}
+	if kind == "" || kind == "S" {
+		c01structText(c, only, upTo)
+	}
 	if kind == "" || kind == "P" {
 		c01bodyGroups(c, only, upTo)
 	}
@@ -944,7 +978,7 @@ func init() {
 		Level: "exploration",
 		Rule: "(T) every string of <=3 (thorough 4) tokens over a 60-token alphabet, joined with and without blanks, x 10 wrappers (bare, macexpand, quote, syntax-quote, eval, infix block, function body, call head, array, call argument) through EvalString, LoadString+Run, the REPL line path (parse, continuation, infix wrap, EvalExpressions, stack-trace/print) and the parser alone; " +
 			"(K) every bound name, macro and special form, and 12 user-defined functions/macros/closures/struct values (lazy, variadic, typed, tail-recursive signatures) x every argument vector of length 0..2 (thorough 3) over 24 value/form kinds, and 41 kinds of value in call-head position with the same vectors; (F) every top-level form of the 111 corpus scripts, after the forms before it, under every prefix, single-token deletion, duplication, neighbour swap and replacement by 8 (thorough 18) tokens; " +
-			"(N) 31 nesting families at depths 1..600 (thorough 1500; some parsers are quadratic in the nesting depth), closed, unclosed and over-closed, through eval, REPL, parser, compiler and printer; (P) 16 statements x 8 self-calling tails x 5 callers as function bodies, each followed by ordinary evaluations on the same interpreter; (Y) every bound function x 10 call shapes on an array and a hash that contain themselves, each in its own process; (C) hand list + alphabet through zygo -c, REPL on stdin and script file. Oracle: the call returns a value or an error (no escaping panic, no process death, no Go-nil result), and returns: a call still running after 90 s although the 100000-step VM budget is not used up ends the worker (watchdog) and is confirmed by three solitary replays",
+			"(N) 31 nesting families at depths 1..600 (thorough 1500; some parsers are quadratic in the nesting depth), closed, unclosed and over-closed, through eval, REPL, parser, compiler and printer; (P) 16 statements x 8 self-calling tails x 5 callers as function bodies, each followed by ordinary evaluations on the same interpreter; (S) struct declarations with 9 x 9 ASCII / 2-, 3-, 4-byte texts in field attributes, instances re-bound and printed; (Y) every bound function x 10 call shapes on an array and a hash that contain themselves, each in its own process; (C) hand list + alphabet through zygo -c, REPL on stdin and script file. Oracle: the call returns a value or an error (no escaping panic, no process death, no Go-nil result), and returns: a call still running after 90 s although the 100000-step VM budget is not used up ends the worker (watchdog) and is confirmed by three solitary replays",
 		Assumptions:   []string{"texts that name channel / goroutine primitives may wait for ever and are counted, not judged, when they do", "functions acting on the outside world (" + strings.Join(c01withheld, ", ") + ", sys) are replaced by failing stubs", "allocation sizes between 2^31 and 2^62 are not in the value menu (out-of-memory is not explored)"},
 		QuickDeadline: 170 * time.Second,
 		Run:           func(c *engine.Ctx) { c01all(c, "", -1) },
